@@ -1,6 +1,6 @@
 (* C16 - SortedDeque behaves like an ordered map with append-only insertion. *)
 From Coq Require Import List ZArith Bool.
-From WP Require Import deque.Sorted deque.SortedProofs.
+From WP Require Import deque.Sorted deque.SortedProofs deque.SortedGone.
 Import ListNotations.
 Open Scope Z_scope.
 
@@ -36,6 +36,32 @@ Proof. exact (spec_last_largest m a x). Qed.
 Theorem C16_live_items_sorted l : SS l -> MapInv (abs l).
 Proof. exact (abs_MapInv l). Qed.
 
+(* "Removed or popped keys are never found, iterated or returned again", at history level and for
+   the faithful model itself: split any history at any point; if after the first part no live
+   item holds key k (it was removed, popped, cleared away or never pushed -- the three lemmas
+   below), then as long as no later operation pushes a live item with key k, no later result of
+   find, remove, pop_first, pop_last, first, last or iteration hands out an item with key k. *)
+Theorem C16_gone_stays_gone k ops1 ops2 l1 :
+  snd (run step [] ops1) = Some l1 -> NoKey k (filter live l1) ->
+  forallb (fun o => negb (pushes_key k o)) ops2 = true ->
+  forallb (fun x => negb (mentions k x)) (fst (run step l1 ops2)) = true.
+Proof. exact (model_gone_stays_gone k ops1 ops2 l1). Qed.
+Theorem C16_removed_is_gone k m : NoKey k (filter (fun it => negb (has_key k it)) m).
+Proof. exact (removed_gone k m). Qed.
+Theorem C16_popped_first_is_gone m a : MapInv m -> hd_error m = Some a -> NoKey (key a) (tl m).
+Proof. exact (popped_first_gone m a). Qed.
+Theorem C16_popped_last_is_gone m a : MapInv m -> hd_error (rev m) = Some a -> NoKey (key a) (removelast m).
+Proof. exact (popped_last_gone m a). Qed.
+(* non-vacuity: key 2 removed from the middle, then looked up, iterated and popped around *)
+Example C16_gone_example :
+  let ops1 := [Push (1, Some 10); Push (2, Some 20); Push (3, Some 30); Remove 2] in
+  match snd (run step [] ops1) with
+  | Some l1 => existsb (has_key 2) (filter live l1) = false /\
+               forallb (fun x => negb (mentions 2 x)) (fst (run step l1 [Find 2; Iter; Remove 2; PopFirst; Last; PopLast])) = true
+  | None => False
+  end.
+Proof. vm_compute. split; reflexivity. Qed.
+
 (* non-vacuity: middle removal, then removals from both ends expose and clean the tombstone *)
 Example C16_example :
   run step [] [Push (1, Some 10); Push (2, Some 20); Push (3, Some 30); Push (4, Some 40);
@@ -56,3 +82,10 @@ Print Assumptions C16_sorted_refines_map.
 Print Assumptions C16_panic_only_on_bad_push.
 Print Assumptions C16_spec_present_found.
 Print Assumptions C16_spec_last_largest.
+Check C16_gone_stays_gone : forall k ops1 ops2 l1,
+  snd (run step [] ops1) = Some l1 -> NoKey k (filter live l1) ->
+  forallb (fun o => negb (pushes_key k o)) ops2 = true ->
+  forallb (fun x => negb (mentions k x)) (fst (run step l1 ops2)) = true.
+Print Assumptions C16_gone_stays_gone.
+Print Assumptions C16_popped_first_is_gone.
+Print Assumptions C16_popped_last_is_gone.
